@@ -22,6 +22,13 @@ def strategy(draw, kinds, max_steps=8):
     coarse = draw(st.integers(0, 9)) < 7
     c = draw(procs.process_case(kinds=kinds, removal=(0.1, 10.0) if coarse else (1e-4, 0.1), max_steps=max_steps))
     c["coarse"] = coarse
+    if c["kind"].endswith("noniso") and draw(st.integers(0, 9)) < 3:
+        # thin region: self-cooling driven below 0 K by ONE step that removes 30..97% of the feed, landing on the LAST reported
+        # state (nothing after it can raise) - found by a seeded change that the plain generator reached only at some seeds
+        c["program"] = None
+        c["steps"] = draw(st.integers(2, 3))
+        c["removal"] = draw(gen.uniform(0.3, 0.97))
+        c["coarse"] = True
     return c
 
 
